@@ -19,6 +19,24 @@ def _is_lowered(expr, rd, node, cfg, depth=0):
             if not (isinstance(a, ast.Assign) and len(a.targets) == 1 and isinstance(a.targets[0], ast.Name) and _is_lowered(a.value, rd, dn, cfg, depth + 1)): return False
         return True
     return False
+def _lowered_by_callers(t, fn, key, rd, node, cfg):
+    """the key is (only) a parameter of a private module-level helper, and every call of the helper in the module passes a
+    lower()-normalised value for it"""
+    if not (isinstance(key, ast.Name) and fn.name.startswith("_")): return False
+    params = [a.arg for a in fn.args.args]
+    if key.id not in params: return False
+    if not all(cfg.nodes[d].kind == "entry" for d in rd.defs_of(node, key.id)): return False
+    idx = params.index(key.id); sites = [c for c in calls(t) if callee_name(c) == fn.name and isinstance(c.func, ast.Name)]
+    if not sites: return False
+    for c in sites:
+        cf = enclosing_func(c)
+        if cf is None or cf is fn: return False
+        arg = c.args[idx] if idx < len(c.args) else next((k.value for k in c.keywords if k.arg == key.id), None)
+        if arg is None: return False
+        ccfg = CFG(cf); crd = Reaching(ccfg, cf)
+        cn = next((x for x in ccfg.nodes if x.ast is not None and any(y is c for y in ast.walk(x.ast))), None)
+        if cn is None or not _is_lowered(arg, crd, cn, ccfg): return False
+    return True
 def r_C26a(root):
     rel = "textx/registration.py"; t = load(root, rel); out = []; seen = set()
     st = symtable.symtable(open(root + "/" + rel).read(), rel, "exec")
@@ -48,7 +66,7 @@ def r_C26a(root):
                 elif isinstance(e, ast.Call) and isinstance(e.func, ast.Attribute) and e.func.attr in ("setdefault", "get", "pop") and isinstance(e.func.value, ast.Name) and e.func.value.id in names and e.args: key = e.args[0]
                 if key is None or id(e) in seen: continue
                 seen.add(id(e))
-                if not _is_lowered(key, rd, n, cfg):
+                if not _is_lowered(key, rd, n, cfg) and not _lowered_by_callers(t, fn, key, rd, n, cfg):
                     out.append(Finding("C26", "C26.a", rel, fn.name, ast.unparse(e), "registry key %r is not lower()-normalised on every reaching definition" % ast.unparse(key)))
     return len(seen), out
 def r_C26bcdef(root):
@@ -59,7 +77,7 @@ def r_C26bcdef(root):
     scopes = {c.get_name(): c for c in st.get_children() if c.get_type() == "function"}
     for fn in [n for n in t.body if isinstance(n, ast.FunctionDef)]:
         for g, init in INIT.items():
-            if fn.name in (init,) or fn.name.startswith("clear_"): continue
+            if fn.name in (init,) or fn.name.startswith("clear_") or fn.name.startswith("_"): continue      # private helpers are reached through the public functions (also decided by evaluation, C26.h)
             syms = {s.get_name(): s for s in scopes[fn.name].get_symbols()}
             if g in syms and syms[g].is_global() and syms[g].is_referenced():
                 reads = [x for x in own_nodes(fn) if isinstance(x, ast.Name) and x.id == g and isinstance(x.ctx, ast.Load)]
@@ -104,14 +122,7 @@ def r_C26bcdef(root):
             rebuilds = {any(isinstance(e, ast.Assign) and ast.unparse(e.targets[0]).startswith("metamodels[") for e in r.effects) for r in sel}
             if rebuilds != {(not cached) or kw}:
                 out.append(Finding("C26", "C26.e", rel, "metamodel_for_language", cond, "cached=%s kwargs=%s: metamodel rebuilt=%s, documented %s" % (cached, kw, sorted(rebuilds), (not cached) or kw)))
-    # f: generator_description any-fallback only when permitted
-    fn = find(t, "generator_description"); inst += 1
-    fallback = [s for s in own_nodes(fn) if isinstance(s, ast.Subscript) and ast.unparse(s) == "generators['any']"]
-    if not fallback: raise AnalysisError("any-fallback not found")
-    for fb in fallback:
-        h = next((a for a in ancestors(fb) if isinstance(a, ast.ExceptHandler)), None)
-        ok = h is not None and any(isinstance(s, ast.If) and ast.unparse(s.test) == "not any_permitted" and any(isinstance(b, ast.Raise) for b in s.body) for s in h.body)
-        if not ok: out.append(Finding("C26", "C26.f", rel, "generator_description", ast.unparse(stmt_of(fb)), "'any' generator used although not permitted"))
+    # f: the any-fallback of generator_description is decided by evaluation (C26.g, sa/rules/c26.py)
     return inst, out
 # ---------------- regex helpers (A9)
 def _cat_set(items):
@@ -142,22 +153,8 @@ def r_C21a(root):
     ok = len(p) == 2 and p[0][0] is sc.IN and _cat_set(p[0][1]) == {"wordnd"} and p[1][0] is sc.MAX_REPEAT and p[1][1][0] == 0 and p[1][1][1] == sc.MAXREPEAT \
          and list(p[1][1][2])[0][0] is sc.IN and _cat_set(list(p[1][1][2])[0][1]) == {"digit", "wordnd"}
     if not ok: out.append(Finding("C21", "C21.a", rel, "TextXVisitor.__init__", rx, "keyword classification regex is not (word minus digit)(word)*"))
-    # full-match guard on the RegExMatch construction + \b suffix
-    rm = [c for c in calls(vs) if callee_name(c) == "RegExMatch"]
-    if len(rm) != 1: raise AnalysisError("expected one RegExMatch construction in visit_str_match")
-    ats = fi_v.atoms_at(rm[0])
-    gs = [a.replace(" ", "") for a, pol in ats if pol]
-    full = full_match_guard(ats)
-    if not full: out.append(Finding("C21", "C21.a", rel, "TextXVisitor.visit_str_match", ast.unparse(rm[0]), "keyword branch is not guarded by a full match of the identifier regex (guards: %s)" % gs))
-    pat = fi_v.expand(rm[0].args[0], at=rm[0])
-    # the pattern, evaluated for a sample keyword, is the keyword followed by a word boundary
-    from sa import pyeval as _pe
-    names_ = {x.id for x in ast.walk(pat) if isinstance(x, ast.Name)}
-    try: tail = "\\b" if _pe.evaluate(pat, {n_: "KW" for n_ in names_}) == "KW\\b" else None
-    except _pe.Unsupported: tail = None
-    if tail != "\\b": out.append(Finding("C21", "C21.a", rel, "TextXVisitor.visit_str_match", ast.unparse(rm[0]), "keyword regex does not end in a word boundary"))
-    if not any(a.replace(" ", "") == "self.metamodel.autokwd" and pol for a, pol in ats): out.append(Finding("C21", "C21.a", rel, "TextXVisitor.visit_str_match", ast.unparse(rm[0]), "keyword regex built although autokwd is off"))
-    return 4, out
+    # (what visit_str_match builds for which literal is decided by evaluation: sa/rules/c21.py)
+    return 1, out
 def r_C04(root):
     out = []; inst = 0
     lang = load(root, "textx/lang.py"); mm = load(root, "textx/metamodel.py")
